@@ -472,6 +472,7 @@ int32_t
 qb_rb_chunk_commit(struct qb_ringbuffer_s * rb, size_t len)
 {
 	uint32_t old_write_pt;
+	uint32_t new_write_pt;
 
 	if (rb == NULL) {
 		return -EINVAL;
@@ -483,9 +484,23 @@ qb_rb_chunk_commit(struct qb_ringbuffer_s * rb, size_t len)
 	rb->shared_data[old_write_pt] = len;
 
 	/*
+	 * The reader decides whether a chunk is present by looking at the
+	 * magic word after the read pointer only.  Invalidate the magic word
+	 * of the chunk that will follow this one, otherwise stale payload of
+	 * an older chunk that happens to equal the magic would be taken for a
+	 * chunk once the reader has caught up.  The margin guarantees that
+	 * word is unused, except when this chunk fills the whole buffer: then
+	 * it is this chunk's own size word, which is never the magic.
+	 */
+	new_write_pt = qb_rb_chunk_step(rb, old_write_pt);
+	if (((new_write_pt + 1) % rb->shared_hdr->word_size) != old_write_pt) {
+		QB_RB_CHUNK_MAGIC_SET(rb, new_write_pt, QB_RB_CHUNK_MAGIC_DEAD);
+	}
+
+	/*
 	 * commit the new write pointer
 	 */
-	rb->shared_hdr->write_pt = qb_rb_chunk_step(rb, old_write_pt);
+	rb->shared_hdr->write_pt = new_write_pt;
 	QB_RB_CHUNK_MAGIC_SET(rb, old_write_pt, QB_RB_CHUNK_MAGIC);
 
 	DEBUG_PRINTF("commit [%zd] read: %u, write: %u -> %u (%u)\n",
